@@ -473,7 +473,7 @@ impl Space for RlimitSpace {
 // ---------------------------------------------------------------------------------------------
 // (e) unwritable / odd targets
 
-const SCENARIOS: [&str; 10] = ["control", "stale-longer-temp-exists", "dir-readonly", "target-is-empty-directory", "target-is-nonempty-directory", "no-extension", "non-utf8-extension", "parent-missing", "temp-name-is-directory", "dir-readonly-temp-exists"];
+const SCENARIOS: [&str; 14] = ["dest-is-symlink", "dest-is-hardlinked", "dest-is-symlink+write-fault", "dest-is-hardlinked+write-fault", "control", "stale-longer-temp-exists", "dir-readonly", "target-is-empty-directory", "target-is-nonempty-directory", "no-extension", "non-utf8-extension", "parent-missing", "temp-name-is-directory", "dir-readonly-temp-exists"];
 struct TargetSpace {
     fx: Fx,
     drop_priv_ok: bool,
@@ -487,6 +487,10 @@ impl TargetSpace {
     }
     fn applicable(sc: &str, pre: Pre) -> bool {
         // a pre-existing FILE at the destination contradicts a directory at the destination / a missing parent
+        // a link needs something to point at
+        if sc.starts_with("dest-is-") {
+            return pre == Pre::Old;
+        }
         !(pre == Pre::Old && matches!(sc, "target-is-empty-directory" | "target-is-nonempty-directory" | "parent-missing"))
     }
 }
@@ -530,7 +534,17 @@ impl Space for TargetSpace {
         if wl == Wl::SetPw {
             std::fs::write(cd.src(), &self.fx.src_xlsx).unwrap();
         }
-        if pre == Pre::Old {
+        let linked = sc.starts_with("dest-is-");
+        let other_name = cd.d.join(format!("the-same-file-under-another-name.{}", wl.ext()));
+        if linked {
+            // the old file lives under another name; the destination is a symbolic link to it / a second hard link
+            std::fs::write(&other_name, self.fx.old_bytes(wl)).unwrap();
+            if sc.contains("symlink") {
+                std::os::unix::fs::symlink(&other_name, &dest).unwrap();
+            } else {
+                std::fs::hard_link(&other_name, &dest).unwrap();
+            }
+        } else if pre == Pre::Old {
             std::fs::write(&dest, self.fx.old_bytes(wl)).unwrap();
         }
         let mut tmp_name = dest.clone().into_os_string();
@@ -560,8 +574,12 @@ impl Space for TargetSpace {
             // the child may run as root or not; nothing to do
         }
         let src = cd.src();
-        let o = run_forked(&ChildCfg { fsize: None, drop_priv: readonly, timeout: Duration::from_secs(30) }, || self.fx.do_save(wl, &dest, &src));
+        // "+write-fault": no file may grow beyond 8 bytes, so every write of the save fails (the source of set_password
+        // is only read)
+        let fsize = if sc.ends_with("+write-fault") { Some(8) } else { None };
+        let o = run_forked(&ChildCfg { fsize, drop_priv: readonly, timeout: Duration::from_secs(30) }, || self.fx.do_save(wl, &dest, &src));
         let d = read_dest(&dest);
+        let other_after = if linked { Some(std::fs::read(&other_name).unwrap_or_default()) } else { None };
         let ls = listing(&cd.d);
         let inner_ok = sc != "target-is-nonempty-directory" || dest.join("inner.txt").exists();
         cd.make_writable();
@@ -569,6 +587,18 @@ impl Space for TargetSpace {
         let (dclass, mut fs) = judge(&self.fx, wl, before, &o, &d, false);
         sink.obs(&format!("target|{}|{}|{}|{}|{}|{:?}", wl.name(), sc, pre.name(), o.kind(), dclass, ls));
         sink.count(&format!("targets:{}:{}", o.kind(), dclass), 1);
+        if let Some(bytes) = other_after {
+            // the old content is reachable under its other name: a failed save must leave it alone; a successful one may
+            // either replace the destination name (rename) or write through it, but never leave a fragment behind
+            let old = self.fx.old_bytes(wl);
+            let ok = bytes == old || (o == Res::Ok && self.fx.is_complete_new(wl, &bytes).is_ok());
+            if !ok {
+                fs.push(Finding { clause: "destination-intact", symptom: if o == Res::Ok { "ok-but-linked-file-damaged".into() } else { "failed-and-linked-file-damaged".into() }, detail: format!("the file the destination was linked to now has {} bytes (old file: {} bytes) and is neither the old nor a complete new file", bytes.len(), old.len()) });
+            }
+        }
+        if sc.ends_with("+write-fault") && o == Res::Ok {
+            fs.push(Finding { clause: "harness", symptom: "fault-did-not-bind".into(), detail: "the 8-byte file size limit did not make the save fail".into() });
+        }
         if !inner_ok {
             fs.push(Finding { clause: "destination-intact", symptom: "directory-target-emptied".into(), detail: "the directory at the destination lost its content".into() });
         }
@@ -577,7 +607,7 @@ impl Space for TargetSpace {
         if must_fail && o == Res::Ok && dclass == "new" {
             fs.push(Finding { clause: "harness", symptom: "fault-did-not-bind".into(), detail: format!("scenario {} did not make the target unwritable", sc) });
         }
-        if (sc == "control" || sc == "stale-longer-temp-exists") && (o != Res::Ok || dclass != "new") && fs.is_empty() {
+        if (sc == "control" || sc == "stale-longer-temp-exists" || sc == "dest-is-symlink" || sc == "dest-is-hardlinked") && (o != Res::Ok || dclass != "new") && fs.is_empty() {
             fs.push(Finding { clause: "control", symptom: "fails-without-fault".into(), detail: format!("healthy target but {} / destination {}", o.text(), dclass) });
         }
         for mut f in fs {
